@@ -43,6 +43,12 @@ pub fn reference(r: &RefOnt, alg: Alg, kind: Kind, a: u32, b: u32) -> f64 {
 /// The same formulas on the model's ancestor sets, distances and record sets, with the information contents
 /// supplied by the caller (how exact an information content is, is C03's question - see `ics`).
 pub fn reference_on(r: &RefOnt, ic: &dyn Fn(u32) -> f64, alg: Alg, kind: Kind, a: u32, b: u32) -> f64 {
+    reference_full(r, ic, alg, kind, a, b).0
+}
+
+/// (reference value, Lin of the pair on the same information contents) - the second one scales the absolute
+/// slack of Relevance / InformationCoefficient (see `tolerance`)
+fn reference_full(r: &RefOnt, ic: &dyn Fn(u32) -> f64, alg: Alg, kind: Kind, a: u32, b: u32) -> (f64, f64) {
     let common_incl: Vec<u32> = r.anc_incl(a).intersection(&r.anc_incl(b)).copied().collect();
     let resnik = common_incl.iter().map(|t| ic(*t)).fold(0.0f64, f64::max);
     let lin = {
@@ -53,7 +59,7 @@ pub fn reference_on(r: &RefOnt, ic: &dyn Fn(u32) -> f64, alg: Alg, kind: Kind, a
             2.0 * resnik / s
         }
     };
-    match alg {
+    let value = match alg {
         Alg::Resnik => resnik,
         Alg::Lin => lin,
         Alg::Jc => {
@@ -69,7 +75,7 @@ pub fn reference_on(r: &RefOnt, ic: &dyn Fn(u32) -> f64, alg: Alg, kind: Kind, a
         Alg::InformationCoefficient => lin * (1.0 - 1.0 / (1.0 + resnik)),
         Alg::GraphIc => {
             if a == b {
-                return 1.0;
+                return (1.0, lin);
             }
             let union: std::collections::BTreeSet<u32> = r.terms[&a].ancestors.union(&r.terms[&b].ancestors).copied().collect();
             let u: f64 = union.iter().map(|t| ic(*t)).sum();
@@ -85,7 +91,7 @@ pub fn reference_on(r: &RefOnt, ic: &dyn Fn(u32) -> f64, alg: Alg, kind: Kind, a
         },
         Alg::Mutation => {
             if a == b {
-                return 1.0;
+                return (1.0, lin);
             }
             let (x, y) = (&r.terms[&a].recs[kind.idx()], &r.terms[&b].recs[kind.idx()]);
             let u = x.union(y).count();
@@ -95,6 +101,28 @@ pub fn reference_on(r: &RefOnt, ic: &dyn Fn(u32) -> f64, alg: Alg, kind: Kind, a
                 x.intersection(y).count() as f64 / u as f64
             }
         }
+    };
+    (value, lin)
+}
+
+/// relative part of every value comparison of this module
+const RTOL: f64 = 1e-5;
+/// Resnik is the maximum of stored f32 information contents: nothing is computed, 4 ulp
+const RTOL_RESNIK: f64 = 4.0 * 1.2e-7;
+/// `1 - exp(-r)` and `1 - 1/(1+r)` evaluated in f32 lose up to two ulp of 1.0 ABSOLUTELY before they are
+/// multiplied by Lin: the only absolute slack an f32 evaluation of a built-in needs, and it scales with Lin
+const ONE_MINUS_SLACK: f64 = 2.4e-7;
+
+/// How far an f32 evaluation of the documented formula on the given f32 information contents may be from the
+/// f64 reference `w`: relative only (quotients and sums of non-negative f32 are relatively stable at every
+/// magnitude, so a score of 1e-5 is held to the same 5 digits as one of 0.5), plus `lin * 2.4e-7` for the two
+/// algorithms with a `1 - x` factor. A reference of exactly 0 is a structural zero (no common ancestor with
+/// information content, no path, no common record: 0/x or 0*x in every evaluation) and tolerates nothing.
+fn tolerance(alg: Alg, w: f64, lin: f64) -> f64 {
+    match alg {
+        Alg::Resnik => RTOL_RESNIK * w.abs(),
+        Alg::Relevance | Alg::InformationCoefficient => RTOL * w.abs() + ONE_MINUS_SLACK * lin.abs(),
+        _ => RTOL * w.abs(),
     }
 }
 
@@ -126,10 +154,15 @@ fn scores(alg: Alg, k: InformationContentKind, a: &hpo::HpoTerm, b: &hpo::HpoTer
     [a.similarity_score(b, &bi), bi.calculate(a, b), direct]
 }
 
-/// two f32 results of the same quantity: equal up to rounding (the band every value comparison of this module
-/// uses: atol 1e-6 + rtol 1e-5); NaN only matches NaN
-fn same(x: f32, y: f32) -> bool {
-    (x.is_nan() && y.is_nan()) || x == y || ((x - y).abs() as f64) <= 1e-6 + 1e-5 * (x.abs().max(y.abs()) as f64)
+/// two f32 results of the same quantity: equal up to rounding - relative 1e-5 of the larger one, no absolute
+/// part but `extra` (the `1 - x` slack of Relevance / InformationCoefficient, 0 for the others); NaN only
+/// matches NaN, an infinite value only itself
+fn same(x: f32, y: f32, extra: f64) -> bool {
+    (x.is_nan() && y.is_nan()) || x == y || (x.is_finite() && y.is_finite() && (x as f64 - y as f64).abs() <= RTOL * (x.abs().max(y.abs()) as f64) + extra)
+}
+
+fn one_minus(alg: Alg) -> bool {
+    matches!(alg, Alg::Relevance | Alg::InformationCoefficient)
 }
 
 /// The information contents the formulas are evaluated on: per kind, what the library reports for the term
@@ -180,45 +213,62 @@ pub fn check_ontology_pairs(ont: &Ontology, r: &RefOnt, algs: &[Alg], counters: 
                     counters.0 += 1;
                     let s = scores(alg, ick(kind), &ta, &tb);
                     let site = format!("{alg:?}({})", kind.name());
-                    // the three entry points run the same algorithm: equal up to rounding (NaN-ness must agree too)
-                    if !same(s[0], s[1]) || !same(s[1], s[2]) {
-                        return Some((site, "similarity_score, Builtins and the concrete struct disagree".into(), format!("({a},{b}): {s:?}")));
-                    }
-                    if (ia + ib) % 3 == kind.idx() {
-                        let c = &cached[ai][kind.idx()];
-                        let (c1, c2) = (c.calculate(&ta, &tb), c.calculate(&ta, &tb));
-                        if !same(c1, s[1]) || !same(c2, s[1]) {
-                            return Some((site, "CachedSimilarity returns another score than the similarity it wraps".into(), format!("({a},{b}): first call {c1}, second call {c2}, Builtins {}", s[1])));
-                        }
-                    }
-                    let v = s[0];
-                    if v.is_nan() {
-                        return Some((site, "score is NaN".into(), format!("({a},{b})")));
-                    }
-                    if !v.is_finite() || v < 0.0 {
-                        return Some((site, "score is negative or not finite".into(), format!("({a},{b}): {v}")));
-                    }
-                    // "does not depend on argument order": for an f32 result that is up to rounding (the two orders
-                    // may add the same information contents in another order)
-                    let back = scores(alg, ick(kind), &tb, &ta)[0];
-                    if !same(v, back) {
-                        return Some((site, "score depends on argument order".into(), format!("({a},{b}) = {v}, ({b},{a}) = {back}")));
-                    }
-                    if a == b && matches!(alg, Alg::GraphIc | Alg::Jc | Alg::Distance | Alg::Mutation) && v != 1.0 {
-                        return Some((site, "self-similarity is not 1".into(), format!("({a},{a}) = {v}")));
-                    }
                     let icf = |t: u32| ic[kind.idx()][&t];
-                    let want = reference_on(r, &icf, alg, kind, a, b);
+                    let (want, lin) = reference_full(r, &icf, alg, kind, a, b);
                     if want != 0.0 && want != 1.0 {
                         counters.1 += 1;
                     }
-                    let near = |w: f64| (v as f64 - w).abs() <= 1e-6 + 1e-5 * w.abs();
+                    // both sides of a comparison of two library values may carry the `1 - x` loss
+                    let extra = if one_minus(alg) { 2.0 * ONE_MINUS_SLACK * lin } else { 0.0 };
+                    // the three entry points run the same algorithm: equal up to rounding (NaN-ness must agree too)
+                    if !same(s[0], s[1], extra) || !same(s[1], s[2], extra) {
+                        return Some((site, "similarity_score, Builtins and the concrete struct disagree".into(), format!("({a},{b}): {s:?}")));
+                    }
+                    let mut vals: [(&str, f32); 5] = [("HpoTerm::similarity_score", s[0]), ("Builtins::calculate", s[1]), ("the concrete struct", s[2]), ("", 0.0), ("", 0.0)];
+                    let mut nvals = 3;
+                    if (ia + ib) % 3 == kind.idx() {
+                        let c = &cached[ai][kind.idx()];
+                        let (c1, c2) = (c.calculate(&ta, &tb), c.calculate(&ta, &tb));
+                        if !same(c1, s[1], extra) || !same(c2, s[1], extra) {
+                            return Some((site, "CachedSimilarity returns another score than the similarity it wraps".into(), format!("({a},{b}): first call {c1}, second call {c2}, Builtins {}", s[1])));
+                        }
+                        vals[3] = ("CachedSimilarity, first call", c1);
+                        vals[4] = ("CachedSimilarity, second call", c2);
+                        nvals = 5;
+                    }
+                    // "does not depend on argument order": for an f32 result that is up to rounding (the two orders
+                    // may add the same information contents in another order)
+                    let v = s[0];
+                    let back = scores(alg, ick(kind), &tb, &ta)[0];
+                    if !same(v, back, extra) {
+                        return Some((site, "score depends on argument order".into(), format!("({a},{b}) = {v}, ({b},{a}) = {back}")));
+                    }
                     // Jiang-Conrath of two distinct terms of which exactly one has information content 0: the library
                     // answers 0, the cited formula 1/(ic(a)+ic(b)-2*resnik+1); this is no zero-denominator guard and
                     // no documented special case, so both are accepted (see assumptions)
                     let alt = if alg == Alg::Jc && a != b && (icf(a) == 0.0) != (icf(b) == 0.0) { Some(1.0 / (icf(a) + icf(b) - 2.0 * reference_on(r, &icf, Alg::Resnik, kind, a, b) + 1.0)) } else { None };
-                    if !near(want) && !alt.is_some_and(near) {
-                        return Some((site, "score differs from the documented formula".into(), format!("({a},{b}): observed {v} expected {want}{}", alt.map_or(String::new(), |x| format!(" (or {x})")))));
+                    // the strict sentences and the formula hold for the value of EVERY entry point
+                    for &(entry, v) in &vals[..nvals] {
+                        let via = if entry == vals[0].0 { String::new() } else { format!(" [{entry}]") };
+                        if v.is_nan() {
+                            return Some((site, "score is NaN".into(), format!("({a},{b}){via}")));
+                        }
+                        if !v.is_finite() || v < 0.0 {
+                            return Some((site, "score is negative or not finite".into(), format!("({a},{b}): {v}{via}")));
+                        }
+                        if a == b && matches!(alg, Alg::GraphIc | Alg::Jc | Alg::Distance | Alg::Mutation) && v != 1.0 {
+                            return Some((site, "self-similarity is not 1".into(), format!("({a},{a}) = {v}{via}")));
+                        }
+                        let near = |w: f64, tol: f64| if w == 0.0 { v == 0.0 } else { (v as f64 - w).abs() <= tol };
+                        let mut ok = near(want, tolerance(alg, want, lin)) || alt.is_some_and(|x| near(x, tolerance(alg, x, lin)));
+                        if !ok && alg == Alg::GraphIc && want != 0.0 {
+                            // two f32 sums of n non-negative summands: each within n/2 ulp whatever the order
+                            let n = r.anc_incl(a).intersection(&r.anc_incl(b)).count() + r.terms[&a].ancestors.union(&r.terms[&b].ancestors).count() + 2;
+                            ok = (v as f64 - want).abs() <= (n as f64 * 1.2e-7).max(RTOL) * want.abs();
+                        }
+                        if !ok {
+                            return Some((site, "score differs from the documented formula".into(), format!("({a},{b}): observed {v} expected {want}{}{via}", alt.map_or(String::new(), |x| format!(" (or {x})")))));
+                        }
                     }
                 }
             }
@@ -286,7 +336,7 @@ pub fn run(ctx: &mut Ctx) {
     ctx.assumptions = vec![
         "reference formulas are transcribed from the struct documentation / cited papers and calibrated on the GraphIc literal pinned in the crate's documentation".into(),
         "the formulas are evaluated on the information contents the library reports for the terms (as long as C03's tolerance accepts them as such, the model's -ln(n/N) otherwise): their exactness is C03's question".into(),
-        "values compared with atol 1e-6 + rtol 1e-5, the entry points among each other and the two argument orders (symmetry) within the same band (f32 sums taken in another order); NaN, sign, finiteness, self-similarity compared strictly".into(),
+        "values compared RELATIVELY (rtol 1e-5; Resnik 4 ulp; GraphIc on long ancestor lists 1.2e-7 per summand) at every magnitude - a score of 1e-5 is held to the same digits as one of 0.5; the only absolute slack is Lin * 2.4e-7 for Relevance / InformationCoefficient (their factor 1 - x loses two ulp of 1.0 in f32); a reference of exactly 0 (structural zero) demands exactly 0; the entry points among each other and the two argument orders (symmetry) within the same relative band; NaN, sign, finiteness, self-similarity and the formula are checked on the value of every entry point (similarity_score, Builtins, struct, CachedSimilarity twice)".into(),
         "Jiang-Conrath of two distinct terms of which exactly one has information content 0: 0 (what the library answers; not documented) and the value of the cited formula are both accepted".into(),
         "Builtins::new: only the 13 lower-case names, \"does-not-exist\" and \"\" have a fixed answer; other spellings are refuse-or-consistent".into(),
         "CachedSimilarity<Builtins> is driven as a fourth entry point (one cache per algorithm, kind and ontology; every pair goes through the caches of one kind, the kinds taking turns)".into(),
@@ -432,6 +482,7 @@ pub fn run(ctx: &mut Ctx) {
             ctx.transitions(f.n_steps() + 75);
             let Ok(ont) = drive::build(&f, Mode::Minimal) else {
                 ctx.exec();
+                ctx.violation("Builder", "[builder] construction fails on valid facts", json!({"case": f.to_json()}));
                 continue;
             };
             let mut counters = (0u64, 0u64);
@@ -512,13 +563,14 @@ pub fn run(ctx: &mut Ctx) {
                                 let (tx, ty) = (ont.hpo(x).unwrap(), ont.hpo(y).unwrap());
                                 let got = b.calculate(&tx, &ty);
                                 let want = scores(alg, k, &tx, &ty)[2];
-                                if !same(got, want) {
+                                if !same(got, want, if one_minus(alg) { 2.0 * ONE_MINUS_SLACK } else { 0.0 }) {
                                     return Some(format!("on ({x},{y}) = {got}, {alg:?} gives {want}"));
                                 }
                             }
                         }
                         None
                     };
+                    let refused_spellings = std::cell::Cell::new(0u64);
                     let res = guard(|| -> V {
                         for (name, alg) in names {
                             let mixed: String = name.chars().enumerate().map(|(i, c)| if i % 2 == 0 { c.to_ascii_uppercase() } else { c }).collect();
@@ -529,7 +581,10 @@ pub fn run(ctx: &mut Ctx) {
                                         Ok(b) => b,
                                         Err(_) if si == 0 => return Some(("Builtins::new".into(), "refuses a documented name".into(), format!("{spelled:?}"))),
                                         // another spelling than the lower-case one may be refused
-                                        Err(_) => continue,
+                                        Err(_) => {
+                                            refused_spellings.set(refused_spellings.get() + 1);
+                                            continue;
+                                        }
                                     };
                                     if let Some(d) = differs(&b, alg, k) {
                                         return Some(("Builtins::new".into(), "the name selects another algorithm or kind".into(), format!("Builtins::new({spelled:?}, {}) {d}", kind.name())));
@@ -554,6 +609,7 @@ pub fn run(ctx: &mut Ctx) {
                         }
                         None
                     });
+                    ctx.bump("refused: Builtins::new (UPPER / mIxEd spelling of a documented name, kind)", refused_spellings.get());
                     ctx.execs(13 * 3 * 3 * 16);
                     ctx.validateds(13 * 3 * 3 * 16);
                     match res {
@@ -624,6 +680,7 @@ pub fn run(ctx: &mut Ctx) {
             ctx.transitions(f.n_steps() + 108);
             let Ok(ont) = drive::build(&f, Mode::Minimal) else {
                 ctx.exec();
+                ctx.violation("Builder", "[builder] construction fails on valid facts", json!({"case": f.to_json()}));
                 continue;
             };
             let mut counters = (0u64, 0u64);
